@@ -86,7 +86,7 @@ def parse_unit(path):
     """-> dict(name, props, allow, segments).  segments: ('text', lines) | ('block', header, lines, lineno)."""
     lines = open(path, encoding='utf-8').read().split('\n')
     unit = {'path': path, 'name': os.path.splitext(os.path.basename(path))[0], 'props': [], 'allow': [],
-            'segments': [], 'kani': [], 'allow_attr': [], 'rewrites': [], 'strip_attrs': [], 'hoist_format': None}
+            'segments': [], 'kani': [], 'allow_attr': [], 'rewrites': [], 'strip_attrs': [], 'hoist_format': None, 'hoist_patterns': None}
     cur = []
     block = None
     for no, ln in enumerate(lines, 1):
@@ -117,6 +117,9 @@ def parse_unit(path):
             elif d.startswith('strip-attrs '):
                 m = re.match(r'strip-attrs\s+(\S+)\s*::\s*(.*)$', d)
                 unit['strip_attrs'].append({'names': m.group(1).split('|'), 'why': m.group(2)})
+                cur.append(ln)
+            elif d.startswith('hoist-closure-patterns'):
+                unit['hoist_patterns'] = d.split('::', 1)[-1].strip() or 'closure parameter patterns hoisted into a let'
                 cur.append(ln)
             elif d.startswith('hoist-format-captures'):
                 unit['hoist_format'] = d.split('::', 1)[-1].strip() or 'format! inline captures hoisted to positional arguments'
@@ -257,6 +260,31 @@ def normalise(unit, text, log=None):
                 break
         if hit:
             continue
+        if unit.get('hoist_patterns') and ts[k][1] == '|' and k > 0 and (ts[k - 1][1] in ('(', ',', '=') or ts[k - 1][1] == 'move') \
+                and k + 1 < len(ts) and ts[k + 1][1] == '(':
+            pe = match_close(ts, k + 1)
+            if pe + 1 < len(ts) and ts[pe + 1][1] == '|':
+                pat = text[ts[k + 1][2]:ts[pe][3]]
+                pname = '__p%d' % len([e for e in edits if e[2].startswith('__p')])
+                edits.append((ts[k + 1][2], ts[pe][3], pname))
+                b = pe + 2
+                if ts[b][1] == '-' and ts[b + 1][1] == '>':
+                    while ts[b][1] != '{':
+                        b += 1
+                if ts[b][1] == '{':
+                    edits.append((ts[b][3], ts[b][3], ' let %s = %s;' % (pat, pname)))
+                else:
+                    j = b
+                    while j < len(ts):
+                        if ts[j][1] in '([{':
+                            j = match_close(ts, j)
+                        elif ts[j][1] in (')', ',', ']', '}', ';'):
+                            break
+                        j += 1
+                    edits.append((ts[b][2], ts[b][2], '{ let %s = %s; ' % (pat, pname)))
+                    edits.append((ts[j - 1][3], ts[j - 1][3], ' }'))
+                if log is not None:
+                    log.append({'kind': 'hoist-closure-pattern', 'old': '|%s|' % pat, 'new': '|%s| { let %s = %s; .. }' % (pname, pat, pname), 'why': unit['hoist_patterns']})
         if unit.get('hoist_format') and ts[k][1] == 'format' and k + 3 < len(ts) and ts[k + 1][1] == '!' and ts[k + 2][1] == '(' and ts[k + 3][0] == 'str':
             lit = ts[k + 3]
             caps = _CAPTURE.findall(lit[1])
@@ -384,7 +412,7 @@ def merge(chunks, real_text):
     return ''.join(out), conflicts
 
 
-def generate(unit_path, out_path):
+def generate(unit_path, out_path, spec_root=None):
     """Write the generated file.  Returns a report dict."""
     unit = parse_unit(unit_path)
     gen = []
@@ -394,6 +422,8 @@ def generate(unit_path, out_path):
 
     def emit(lines, owner):
         for ln in lines:
+            if spec_root and owner is None and '#[path' in ln:
+                ln = ln.replace('"../../spec/', '"' + spec_root.rstrip('/') + '/')
             gen.append(ln)
             line_block.append(owner)
 
